@@ -32,7 +32,7 @@ def run(tier, seed):
     if not ck.step_sanity():
         return ck.finish()
     ck.step_prove(["quatkernels", "conversions"], "Props/C06.v", extra=["Model/RotArr.vo"])
-    out = run_impl("c06.py", {"seed": seed, "n": 8 if tier == "quick" else 30, "thorough": tier != "quick"}, timeout=3000)
+    out = run_impl("c06.py", {"seed": seed, "n": 60 if tier == "quick" else 400, "nv": 3 if tier == "quick" else 6, "thorough": tier != "quick"}, timeout=3000)
     cases = out["cases"]
     for c in cases:
         ck.count(c["G"]["name"], (c["G"]["name"], tuple(c["o"])))
